@@ -244,13 +244,13 @@ func (e *engine) craft(pub []byte, ctx string, msg []byte, o craftOpts) []byte {
 }
 
 func (e *engine) runC12() {
-	e.rep.Rule = "EncryptToEd25519/DecryptWithEd25519 (and the PubKey/PrivKey wrappers): messages 0..64 KiB x contexts (incl. empty, NUL, non-UTF-8) x keys, ciphertext equality with the model skeleton over an independent primitive pipeline; wrong key, wrong context, context suffix/prefix; bit flips at every region boundary, truncation at every boundary, extension, prefix re-wrap from public data, grafted prefix/body, sign-alias of the message key; random ciphertexts of every length 0..80 (x6); malformed keys and small-order / non-curve recipient keys; compressible messages of 16 KiB+ (repeated phrase), 64 KiB+ (one byte repeated, ratio > 1000) and incompressible-head / zero-middle / repeated-head mixes with the same tamper classes plus a payload sealed over another message of the same length; every honest ciphertext (large ones included) recomputed with the stdlib pipeline; the documented size bound on the real code: exactly 16 MiB round-trips through both encrypt and both decrypt paths (and is refused under another key / context / a flipped bit / truncation), 16 MiB + 1 is refused by the sender and its stdlib-built ciphertext by the receiver; distinct = distinct op line"
+	e.rep.Rule = "EncryptToEd25519/DecryptWithEd25519 (and the PubKey/PrivKey wrappers): messages 0..64 KiB x contexts (incl. empty, NUL, non-UTF-8) x keys, ciphertext equality with the model skeleton over an independent primitive pipeline; wrong key, wrong context, context suffix/prefix; bit flips at every region boundary, truncation at every boundary, extension, prefix re-wrap from public data, grafted prefix/body, sign-alias of the message key; random ciphertexts of every length 0..80 (x6); malformed keys and small-order / non-curve recipient keys; compressible messages of 16 KiB+ (repeated phrase), 64 KiB+ (one byte repeated, ratio > 1000) and incompressible-head / zero-middle / repeated-head mixes with the same tamper classes plus a payload sealed over another message of the same length; every honest ciphertext (large ones included) recomputed with the stdlib pipeline; the documented size bound on the real code: exactly 16 MiB round-trips through both encrypt and both decrypt paths (and is refused under another key / context / a flipped bit / truncation), 16 MiB + 1 is refused by the sender and its stdlib-built ciphertext by the receiver; INCOMPRESSIBLE (random) messages of exactly 16 MiB, 16 MiB - 1 and 16 MiB - 2 - r (r < 62): accepted, equal to the stdlib construction, and returned by the receiver through wrappers and direct functions (the s2 form and the ciphertext of such a message are LONGER than the message); distinct = distinct op line"
 	e.rep.Require("enc.ok", "enc.err", "dec.ok", "dec.err@guard", "dec.err@blkDec", "dec.err@edToMont-fails", "dec.err@kdf", "dec.err@open-fails", "dec.err@edToMont", "dec.err@s2dec-fails", "reencrypted")
 	// every negative class must have gone through the wrapper the property names AND the direct function
 	for _, c := range []string{"wrong-key", "wrong-context", "context-suffix", "context-prefix", "bit-flip", "truncated", "extended", "shifted", "rewrapped-prefix", "grafted", "foreign-message-key", "sealed-garbage", "low-order-message-key", "random-len", "random-long", "big-bit-flip", "big-truncated", "reencrypted/sign-alias"} {
 		e.rep.Require("dec.via-wrapper:"+c, "dec.via-direct:"+c)
 	}
-	e.rep.Require("enc.msg-compressible-16k", "enc.msg-compressible-run", "enc.msg-compressible-mixed", "dec.via-wrapper:big-sealed-other-message", "dec.via-direct:big-sealed-other-message", "limit.at", "limit.over")
+	e.rep.Require("enc.msg-compressible-16k", "enc.msg-compressible-run", "enc.msg-compressible-mixed", "dec.via-wrapper:big-sealed-other-message", "dec.via-direct:big-sealed-other-message", "limit.at", "limit.over", "limit.noise-at", "limit.noise-below1", "limit.noise-below")
 	e.rep.Require("enc.via-wrapper:small-order-recipient", "enc.via-direct:small-order-recipient", "enc.via-wrapper:random-recipient", "enc.via-direct:random-recipient", "enc.via-wrapper:honest", "enc.via-direct:honest", "dec.nil-key", "enc.nil-key")
 	keys := []*key{e.newKey(), e.newKey(), e.newKey()}
 	sizes := []int{0, 1, 2, 15, 16, 17, 31, 32, 33, 100, 1000, 4096}
@@ -518,6 +518,7 @@ func (e *engine) runC12() {
 		e.encCase(e.rng.Bytes(e.rng.Intn(70)), encCtxs[0], []byte("m"), "recipient-length", nil)
 	}
 	e.runC12Limit(keys[0])
+	e.runC12LimitNoise(keys[1]) // wave 4: incompressible messages at / just below the bound (c12w4.go)
 	e.runC12Norm(keys) // contexts related by a normalisation never decrypt each other's messages (c13b.go, harness/norm)
 }
 
